@@ -82,6 +82,7 @@ fn main() {
         "c10-wal" => c10::wal_leg(&args),
         "c14-codec" => c10::codec_leg(&args),
         "c19-place" => c19::place_leg(&args),
+        "c19-tcp" => c19::tcp_leg(&args),
         "c15-parse" => c15::parse_leg(&args),
         "c15-frag" => c15::frag_leg(&args),
         "c15-reply" => c15::reply_leg(&args),
